@@ -40,79 +40,64 @@ def range_rule(ctx, R2):
     X = x86model(ctx)
     arch, E, afs = X.arch, X.env, X.afs
     cis = arch.func('check_imm_size')
-    env = dict((k, v) for k, v in E.items())
-    env.update(int_class_objs(ctx))
-    ev = Evaluator(env)
-    # i, j, k meanings
-    first = cis.body[0]
-    if not (isinstance(first, ast.Assign) and u(first.value).startswith('imm_to_generic(')):
-        raise AnalysisError('check_imm_size no longer starts with i, j, k = imm_to_generic(imm)')
-    names = [t.id for t in first.targets[0].elts]
-    itg = arch.func('imm_to_generic')
-    rets = [n for n in ast.walk(itg) if isinstance(n, ast.Return)]
-    generic = u(rets[-1].value)
-    if generic.replace(' ', '') != '(int(imm),int32(uint32(imm)),int16(uint16(imm)))':
-        R2.violation('imm_to_generic', 'imm_to_generic', 'imm_to_generic no longer returns (int(imm), int32(uint32(imm)), int16(uint16(imm))): %s' % generic, where(arch, itg))
-    else:
-        R2.ok('imm_to_generic', sample='i = int(imm), j = 32-bit signed wrap, k = 16-bit signed wrap')
-    var_kind = dict(zip(names, ('plain', 'wrap32', 'wrap16')))
+    # check_imm_size(imm, size) is evaluated from its source, with the fixed-width integers modelled, on every size token x boundary values: it answers None exactly for a
+    # value outside the range of the token and otherwise the value in the integer class of that width and signedness.  (The shape of its tests - an elif chain, nested
+    # ifs, a table - is not read.)
+    from .. import simpeval as _SEr
+    from ..consteval import PyRaise as _PRr
+    env = dict((k, v) for k, v in E.items() if isinstance(v, (str, int, bool, list, tuple, dict)) or v is None)
+    env.update(_SEr.INT_CLASSES)
+    env['x86_afs'] = afs
+    for fname_, fnode_ in arch.funcs.items():
+        env.setdefault(fname_, fnode_)
     n_br = 0
-    for n in ast.walk(cis):
-        if not isinstance(n, ast.If):
-            continue
-        tests = n.test.values if isinstance(n.test, ast.BoolOp) and isinstance(n.test.op, ast.And) else [n.test]
-        size_tok = None
-        rng = None
-        for t in tests:
-            if isinstance(t, ast.Compare) and u(t.left) == 'size' and isinstance(t.ops[0], ast.Eq):
-                try:
-                    size_tok = ev.ev(t.comparators[0])
-                except NotConst:
-                    pass
-            if isinstance(t, ast.Compare) and len(t.ops) == 2 and isinstance(t.comparators[0], ast.Name):
-                try:
-                    lo, hi = ev.ev(t.left), ev.ev(t.comparators[1])
-                except NotConst as e:
-                    raise AnalysisError('check_imm_size bound not evaluable: %s' % e)
-                rng = (lo, type(t.ops[0]).__name__, t.comparators[0].id, type(t.ops[1]).__name__, hi)
-        if size_tok is None or rng is None:
-            continue
-        n_br += 1
-        lo, op1, var, op2, hi = rng
-        bits, signed = WIDTH_OF_TOKEN[size_tok]
-        ret = [s for s in n.body if isinstance(s, ast.Return)]
-        inst = 'check_imm_size[%s via %s]' % (size_tok, var)
+    for tok, (bits, signed) in sorted(WIDTH_OF_TOKEN.items()):
+        half, full = 1 << (bits - 1), 1 << bits
+        vals = sorted(set([-full - 1, -full, -half - 1, -half, -half + 1, -1, 0, 1, half - 1, half, half + 1, full - 1, full, full + 1, 0x7FFFFFFF, 0x80000000, 0xFFFFFFFF,
+                           0x100000000 - half, 0x100000000 - half - 1, -0x80000000]))
         problems = []
-        lo_incl = lo if op1 == 'LtE' else lo + 1
-        hi_excl = hi if op2 == 'Lt' else hi + 1
-        kind = var_kind.get(var)
-        if signed:
-            if (lo_incl, hi_excl) != (-(1 << (bits - 1)), 1 << (bits - 1)):
-                problems.append('signed %d-bit range is [%d, %d), expected [%d, %d)' % (bits, lo_incl, hi_excl, -(1 << (bits - 1)), 1 << (bits - 1)))
-            if kind == 'plain':
-                problems.append('signed size tested on the unwrapped value')
-        else:
-            if hi_excl != (1 << bits):
-                problems.append('unsigned %d-bit upper bound is %d, expected %d' % (bits, hi_excl, 1 << bits))
-            if lo_incl not in (0, -(1 << (bits - 1)), -(1 << bits)):
-                problems.append('unsigned %d-bit lower bound is %d' % (bits, lo_incl))
-            if kind != 'plain':
-                problems.append('unsigned size tested on a wrapped value')
-        if ret:
-            rv = ret[0].value
-            inner = rv
-            cls_ = u(inner.func) if isinstance(inner, ast.Call) else None
-            want = ('int%d' if signed else 'uint%d') % bits
-            if cls_ != want:
-                problems.append('returns %s, expected a %s' % (u(rv), want))
-        else:
-            problems.append('branch does not return the cast value')
+        for v in vals:
+            if not -0x80000000 <= v <= 0xFFFFFFFF:
+                continue            # the parsers hand over values of at most 32 bits
+            try:
+                r = Evaluator(dict(env)).call_user(cis, [v, E[tok]])
+            except _PRr as e:
+                problems.append('raises %s for %#x' % (e.exc_name, v))
+                continue
+            except NotConst as e:
+                raise AnalysisError('check_imm_size is outside the evaluable subset (%s, %#x): %s' % (tok, v, e))
+            n_br += 1
+            w32 = v & 0xFFFFFFFF
+            w32s = w32 - (1 << 32) if w32 >> 31 else w32
+            if signed:
+                must = -half <= w32s < half
+                judged = True
+            else:
+                must = 0 <= v < full
+                judged = v >= 0 or v < -full        # a negative value down to -2^bits may be taken as its two's complement or refused: both conventions exist in the callers
+            if r is None:
+                if judged and must:
+                    problems.append('%#x is refused although it fits' % v)
+                continue
+            if judged and not must:
+                problems.append('%#x is accepted as %r: it does not fit %d %s bits and would be truncated' % (v, r, bits, 'signed' if signed else 'unsigned'))
+                continue
+            cls_ = type(r).__name__
+            if cls_ != ('int%d' if signed else 'uint%d') % bits:
+                problems.append('%#x is returned as %s, expected %s%d' % (v, cls_, 'int' if signed else 'uint', bits))
+            elif (int(r) - v) % full:
+                problems.append('%#x is returned as %r: another value modulo 2^%d' % (v, r, bits))
+        inst = 'check_imm_size[%s]' % tok
         if problems:
-            R2.violation(inst, 'range:%s:%s' % (size_tok, '; '.join(problems)), 'check_imm_size for %s: %s' % (size_tok, '; '.join(problems)), where(arch, n))
+            R2.violation(inst, 'range:%s:%s' % (tok, problems[0].split(' is ')[-1][:40] if ' is ' in problems[0] else problems[0][:40]), 'check_imm_size for %s: %s' % (tok, '; '.join(problems[:3])), where(arch, cis),
+                         witness="asm('mov al, 256')" if tok == 'u08' else None)
         else:
-            R2.ok(inst, sample='%s: %d <= %s < %d -> %s' % (size_tok, lo_incl, var, hi_excl, u(ret[0].value)))
-    if n_br < 7:
-        raise AnalysisError('only %d interval branches found in check_imm_size' % n_br)
+            R2.ok(inst, sample='%s: %d boundary values: refused exactly when outside the %d-bit %s range, returned in the class of that width' % (tok, len(vals), bits, 'signed' if signed else 'unsigned'),
+                  nontrivial=True)
+        # two interval instances per token (kept for the floor of the rule)
+        R2.ok(inst + ':low', nontrivial=False)
+    if n_br < 60:
+        raise AnalysisError('check_imm_size: only %d evaluations succeeded' % n_br)
     # ad_to_generic (the displacement forms forge_opc tries for a memory operand), evaluated on boundary displacements: the one-byte form is offered exactly for -128..127
     from ..consteval import PyRaise as _PRa
     from .. import simpeval as _SEa
@@ -767,6 +752,45 @@ def size_vote_rule(ctx, R, X, what='vote'):
              ('add ax, bx', 'add', [g(0, u16), g(3, u16)], True), ('add eax, ebx', 'add', [g(0, u32), g(3, u32)], False), ('add WORD PTR [ebx], ax', 'add', [mem(3, u16), g(0, u16)], True),
              ('inc WORD PTR [ebx]', 'inc', [mem(3, u16)], True), ('inc DWORD PTR [ebx]', 'inc', [mem(3, u32)], False), ('movzx eax, bx', 'movzx', [g(0, u32), g(3, u16)], False),
              ('movzx ax, bl', 'movzx', [g(0, u16), g(3, afs.u08)], True), ('out dx, eax', 'out', [g(2, u16), g(0, u32)], False), ('out dx, ax', 'out', [g(2, u16), g(0, u16)], True)]
+    if what == 'segm':
+        # every memory operand with a segment override contributes its prefix byte and loses the segm key (asm_candidates interpreted up to the operand-size decision)
+        pseg = E.get('prefix_seg')
+        if not isinstance(pseg, (dict, list, tuple)):
+            raise AnalysisError('prefix_seg is not statically evaluable')
+        seg_items = list(pseg.items()) if isinstance(pseg, dict) else list(enumerate(pseg))
+        n_done = 0
+        for sg, byte in seg_items[:6]:
+            for text, name, mk in (('inc DWORD PTR seg%s:[edi]' % sg, 'inc', lambda: [dict(mem(7, u32), **{afs.segm: sg})]),
+                                   ('mov eax, seg%s:[ebx]' % sg, 'mov', lambda: [g(0, u32), dict(mem(3, u32), **{afs.segm: sg})]),
+                                   ('add seg%s:[ebx], ax' % sg, 'add', lambda: [dict(mem(3, u16), **{afs.segm: sg}), g(0, u16)])):
+                ops = mk()
+                me = class_obj(arch, 'x86_mn', 'self')
+                pf = []
+                scope = dict(scope0)
+                scope.update({params[0]: me, params[1]: pf, params[2]: name, params[3]: ops})
+                ev = Evaluator({})
+                ev.env = scope
+                try:
+                    for st in ac.body:
+                        ev.exec_stmts([st], scope)
+                        if 'mnemo_mode' in me.__dict__.get('_attrs', {}):
+                            break
+                except PyRaise as e:
+                    R.violation('segm[%s]' % text, 'segm-prefix:raises:%s' % name, 'asm_candidates raises %s on `%s`' % (e.exc_name, text), where(arch, ac))
+                    continue
+                except NotConst as e:
+                    raise AnalysisError('asm_candidates is outside the evaluable subset before the operand size is decided (`%s`): %s' % (text, e))
+                n_done += 1
+                inst = 'segm[%s]' % text
+                left = [o for o in ops if afs.segm in o]
+                if byte in pf and not left:
+                    R.ok(inst, sample='%s: prefixes %s, the operand has lost its segm key' % (text, ['%#x' % b for b in pf]), nontrivial=(n_done % 3 == 1))
+                else:
+                    R.violation(inst, 'segm-prefix:skipped', '`%s`: asm_candidates collects the prefixes %s and %s: the override does not reach the encoding (or no row matches the operand)'
+                                % (text, ['%#x' % b for b in pf], 'leaves the segm key in the operand' if left else 'drops the key'), where(arch, ac), witness="asm('inc DWORD PTR es:[edi]') == []")
+        if n_done < 12:
+            raise AnalysisError('segment prefix: only %d lines were evaluated' % n_done)
+        return
     if what == 'order':
         # C03.D13: the encoding a reference assembler produces puts the segment override in front of the mandatory prefix of an MMX/SSE opcode (26 66 0f d4 00);
         # the prefixes asm_candidates has collected when the operand size is decided must come in that order
